@@ -34,5 +34,17 @@ Fixpoint kscanl2 (f : R -> R -> R -> R * R) (c : R) (xs ys : list R) : R * list 
   | _, _ => (c, [])
   end.
 
+(* jnp.arange(n) *)
+Definition kiota (n : Z) : list Z := map Z.of_nat (seq 0 (Z.to_nat n)).
+(* jnp.sum of a boolean vector *)
+Definition kcount (l : list bool) : Z := Z.of_nat (length (filter (fun b => b) l)).
+(* jnp.argmax over the last axis: first index of a maximal entry *)
+Fixpoint kargmax_from (best : R) (bi i : Z) (l : list R) : Z :=
+  match l with
+  | [] => bi
+  | x :: tl => if Rlt_dec best x then kargmax_from x i (i + 1)%Z tl else kargmax_from best bi (i + 1)%Z tl
+  end.
+Definition kargmax (l : list R) : Z := match l with [] => 0%Z | x :: tl => kargmax_from x 0%Z 1%Z tl end.
+
 Definition ksum (l : list R) : R := fold_right Rplus 0%R l.
 Definition kmean (l : list R) : R := (ksum l / INR (length l))%R.
